@@ -32,13 +32,19 @@ from .c10_util import TRACER, encode_trace
 
 ID = "C10"
 LEAN_MODULES = ["DclabModel.Properties.C10"]
-RULE = ("per task (compress, condense, repack, join with 2-3 inputs, split into several parts; "
-        "tdms2rtdc on a fixture in the thorough tier) and generated input (feature sets with "
-        "scalars/image/contour/trace/logs, optional stale output / stale temporary file): record "
+RULE = ("per task (compress, condense, repack, join with 2-3 inputs, split into several parts, "
+        "tdms2rtdc on the smallest fixture - both tiers) and generated input (feature sets with "
+        "scalars/image/contour/trace/logs/tables, raw layout without min/max/mean attributes, "
+        "all-NaN scalar feature so that tasks emit warnings; the first case of every task has all "
+        "of these; optional stale output / stale temporary file): record "
         "the operation trace of a successful run, let the Lean driver decide `Conforms` and predict "
         "the output state at every crash point; then re-run with operation k raising OSError "
-        "(quick: ~25 stratified k per case incl. first/last/around every open, close and rename; "
-        "thorough: every k; tdms2rtdc: 60 k) and with os._exit(9) immediately before k for a few k; classify every "
+        "(quick: ~40 k per case, stratified: first/last, around every open/close/rename, all "
+        "operations after the last rename, first/last/random write of every class of HDF5 object "
+        "(events, logs, tables, basins, attributes of each) per file; thorough: every k; tdms2rtdc: "
+        "28/60 k) and with os._exit(9) immediately before k for a few k; after every fault the task "
+        "is run again, undisturbed, in the directory the failed run left behind (two-run history; "
+        "its trace is checked for Conforms and freshFrom, its outputs must be complete); classify every "
         "output path as absent / untouched / complete(== successful output, loadable) / partial, "
         "compare with the prediction, compare sha256 of inputs. One evaluation = one injected run; "
         "distinct = distinct (task, input, k, fault kind) with at least one write before k.")
@@ -64,24 +70,40 @@ FEATS_POOL = ["image", "contour", "trace", "time", "frame", "index", "bright_avg
 
 
 # --------------------------------------------------------------------------------------
-def gen_input(rng, tag):
+def gen_input(rng, tag, rich=False):
     n = rng.randint(3, 9)
     base = rng.randrange(100)
     feats = ["deform", "area_um"] + sorted(rng.sample(FEATS_POOL, rng.randint(0, 4)))
     logs = {}
     for j in range(rng.randint(0, 2)):
         logs[f"log{j}"] = [f"line{rng.randrange(50)}" for _ in range(rng.randint(1, 3))]
+    tables = {}
+    for j in range(rng.choice([1, 2]) if rich else rng.choice([0, 0, 1, 1, 2])):
+        rows = rng.randint(2, 4)
+        tables[f"tab{j}"] = [[float(rng.randrange(100)) for _ in range(rows)]
+                             for _c in range(rng.randint(1, 3))]
+    nan_feature = rich or rng.random() < 0.3  # an all-NaN scalar feature (sensor not connected)
+    raw = nan_feature or rng.random() < 0.3   # raw layout: no min/max/mean attributes
+    if nan_feature and "temp" not in feats:
+        feats = feats + ["temp"]
     return {"name": f"in{tag}.rtdc", "tokens": [base + i for i in range(n)], "feats": feats,
-            "logs": logs, "time": "10:%02d:%02d" % (rng.randrange(60), rng.randrange(60))}
+            "logs": logs, "tables": tables, "raw": raw, "nan_feature": nan_feature,
+            "time": "10:%02d:%02d" % (rng.randrange(60), rng.randrange(60))}
 
 
-def gen_case(rng, task):
+def gen_case(rng, task, rich=False):
+    """`rich`: every input has tables, logs, raw layout and an all-NaN feature (the first case of
+    every task, so that each run covers these input classes whatever the seed)"""
     spec = {"task": task, "seed": rng.randrange(2 ** 30)}
     nin = {"join": rng.choice([2, 3])}.get(task, 1)
-    spec["inputs"] = [gen_input(rng, i) for i in range(nin)]
+    spec["inputs"] = [gen_input(rng, i, rich) for i in range(nin)]
     for inp in spec["inputs"][1:]:
         # same feature set for all join inputs: C10 is not about feature pruning (C09 / F10)
         inp["feats"] = list(spec["inputs"][0]["feats"])
+    if any(inp["nan_feature"] for inp in spec["inputs"]):
+        for inp in spec["inputs"]:
+            if "temp" not in inp["feats"]:
+                inp["feats"] = inp["feats"] + ["temp"]
     spec["stale_out"] = rng.random() < 0.5
     spec["stale_temp"] = task != "split" and rng.random() < 0.4
     if task == "split":
@@ -97,7 +119,7 @@ def gen_case(rng, task):
 
 def tdms_case():
     return {"task": "tdms2rtdc", "seed": 1, "inputs": [], "stale_out": True, "stale_temp": True,
-            "fixture": "fmt-tdms_minimal_2016.zip"}
+            "fixture": "fmt-tdms_minimal_2016.zip"}      # the smallest fixture of tests/data
 
 
 # --------------------------------------------------------------------------------------
@@ -117,10 +139,29 @@ def materialise(spec, d):
         p = d / inp["name"]
         gen.make_rtdc(p, inp["tokens"], feats=inp["feats"], logs=inp["logs"],
                       meta={"experiment": {"time": inp["time"]}})
+        finish_input(p, inp)
         ins.append(str(p))
     # a valid small file used as stale output
     gen.make_rtdc(d / "_stale.bin", [901, 902], feats=("deform", "area_um"))
     return ins
+
+
+def finish_input(path, inp):
+    """tables, raw layout (no min/max/mean attributes), all-NaN feature"""
+    dclab = common.import_dclab()
+    import h5py
+    if inp.get("tables"):
+        with dclab.RTDCWriter(path, mode="append") as hw:
+            for name, cols in inp["tables"].items():
+                hw.store_table(name, {f"col{i}": np.array(c) for i, c in enumerate(cols)})
+    if inp.get("raw") or inp.get("nan_feature"):
+        with h5py.File(path, "a") as h:
+            if inp.get("nan_feature"):
+                h["events/temp"][:] = np.nan
+            for f in h["events"]:
+                if isinstance(h["events"][f], h5py.Dataset):
+                    for key in ("min", "max", "mean"):
+                        h["events"][f].attrs.pop(key, None)
 
 
 def out_paths(spec, d, ins):
@@ -204,20 +245,25 @@ def run_child(spec, d, ins, outs, fail_at=None, kind="raise"):
             except BaseException as e:  # noqa
                 status = f"exc:{type(e).__name__}:{str(e)[:120]}"
             ops = TRACER.stop()
-            res.write_text(json.dumps({"status": status, "ops": ops}))
+            res.write_text(json.dumps({"status": status, "ops": ops, "labels": TRACER.labels}))
         except BaseException:
             code = 3
         finally:
             os._exit(code)
     _, st = os.waitpid(pid, 0)
     code = os.waitstatus_to_exitcode(st)
+    LAST_LABELS[:] = []
     if code == 9:
         return "killed", None
     if code != 0 or not res.exists():
         return f"child-failed:{code}", None
     data = json.loads(res.read_text())
     res.unlink()
+    LAST_LABELS[:] = data.get("labels", [])
     return data["status"], [tuple(o) for o in data["ops"]]
+
+
+LAST_LABELS = []      # labels of the operations of the most recent traced child run
 
 
 def summarize(path):
@@ -245,13 +291,19 @@ def summarize(path):
             out["f:" + f] = h.hexdigest()
         logs = {}
         for name in sorted(ds.logs.keys()):
-            if name.startswith("dclab-") and "warnings" in name:
-                continue      # which warnings fire depends on process state (first-use warnings)
             key = re.sub(r"_\d{4}-\d{2}-\d{2}_\d{2}\.\d{2}\.\d{2}", "_<timestamp>", name)
+            if name.startswith("dclab-") and "warnings" in name:
+                logs[key] = list(ds.logs[name])     # part of the result (every run starts from
+                continue                            # the same warmed-up process state)
             logs[key] = None if name.startswith("dclab-") or name.endswith("_cfg") \
                 else list(ds.logs[name])
         out["logs"] = logs
         out["tables"] = sorted(ds.tables.keys())
+        with h5py.File(path, "r") as h:
+            for name in sorted(h.get("tables", {})):
+                t = h["tables"][name]
+                out["t:" + name] = (hashlib.sha1(np.asarray(t[:]).tobytes()).hexdigest(),
+                                    sorted((k, repr(v)) for k, v in t.attrs.items()))
         out["cfg"] = {sec: {k: repr(v) for k, v in sorted(dict(ds.config[sec]).items())
                             if k != "run identifier"}    # random suffix for filtered exports
                       for sec in ("experiment", "imaging", "setup", "online_contour", "fluorescence")
@@ -276,29 +328,48 @@ def classify(path, stale_sha, base_summary):
     return "c"
 
 
-def choose_ks(rng, ops, mode, target=25):
+def choose_ks(rng, ops, labels, mode, target=40):
+    """fault points: (raise-ks, kill-ks).  Stratified: first/last/around every rename, every
+    open/close/unlink, and first, last and a random operation of every class of HDF5 object
+    written (events, logs, tables, basins, attributes of each) per file; rest random."""
     n = len(ops)
     if mode == "all":
         return list(range(n)), sorted(set(rng.sample(range(n), min(n, 12))))
-    ks = {0, 1, 2, n - 1, n - 2, n - 3}
-    for i, op in enumerate(ops):
-        if op[0] in ("rename", "close", "create", "openAppend", "unlink"):
-            ks.update((i - 1, i, i + 1))
-    ks = sorted(k for k in ks if 0 <= k < n)
-    if len(ks) > 18:
-        must = {0, n - 1} | {i for i, op in enumerate(ops) if op[0] == "rename"} \
-            | {i + 1 for i, op in enumerate(ops) if op[0] == "rename"}
-        must = {k for k in must if 0 <= k < n}
-        rest = [k for k in ks if k not in must]
-        ks = sorted(must | set(rng.sample(rest, max(0, 18 - len(must)))))
-    others = [k for k in range(n) if k not in ks]
-    ks = sorted(set(ks) | set(rng.sample(others, min(len(others), max(0, target - len(ks))))))
+    labels = list(labels) + [""] * (n - len(labels))
     ren = [i for i, op in enumerate(ops) if op[0] == "rename"]
-    kills = {ren[0], min(n - 1, ren[-1] + 1) if ren[-1] + 1 < n else ren[-1],
-             rng.randrange(n), rng.randrange(n)} if ren else {rng.randrange(n)}
-    if len(ren) > 1:
-        kills.add(ren[1])
-    return ks, sorted(kills)
+    prio = {0, n - 1}
+    for i in ren:
+        prio.update((i - 1, i, i + 1, i + 2))
+    if ren:
+        prio.update(range(ren[-1], min(n, ren[-1] + 6)))     # everything right after the rename
+    coarse, fine = {}, {}
+    for i, (op, lab) in enumerate(zip(ops, labels)):
+        coarse.setdefault((op[0], lab), []).append(i)
+        fine.setdefault((op[0], op[1], lab), []).append(i)
+    for idx in coarse.values():
+        prio.update((idx[0], idx[-1]))
+    second = set()
+    for idx in fine.values():
+        second.update((idx[0], idx[-1], rng.choice(idx)))
+    for i, op in enumerate(ops):
+        if op[0] in ("close", "create", "openAppend", "unlink"):
+            second.update((i, i + 1))
+    prio = {k for k in prio if 0 <= k < n}
+    second = sorted(k for k in second if 0 <= k < n and k not in prio)
+    room = max(0, target - len(prio))
+    if len(second) > room:
+        second = rng.sample(second, room)
+    ks = prio | set(second)
+    others = [k for k in range(n) if k not in ks]
+    ks |= set(rng.sample(others, min(len(others), max(0, target - len(ks)))))
+    kills = {rng.randrange(n), rng.randrange(n), n - 1}
+    for i in ren:
+        kills.update((i, i + 1, i + 2))
+    kills = sorted(k for k in kills if 0 <= k < n)
+    if len(kills) > 8:
+        keep = {k for i in ren[-1:] for k in (i, i + 1, i + 2) if k < n}
+        kills = sorted(keep | set(rng.sample(kills, 8 - len(keep))))
+    return sorted(ks), kills
 
 
 def do_case(args):
@@ -326,6 +397,7 @@ def do_case(args):
         return rec
     stale = prepare(spec, d, ins, outs)
     status, ops = run_child(spec, d, ins, outs)
+    labels = list(LAST_LABELS)
     if status != "ok":
         rec["problem"] = f"baseline run failed: {status}"
         return rec
@@ -348,18 +420,26 @@ def do_case(args):
     for op in ops:
         rec["kinds"][op[0]] = rec["kinds"].get(op[0], 0) + 1
     lst = lambda xs: ",".join(str(x) for x in xs) if xs else "-"      # noqa: E731
-    rec["line"] = "trace %s %s %s %s %s" % (
-        lst([roles[p] for p in ins if p in roles][:len(ins)]), lst([roles[p] for p in outs]),
-        lst([roles[p] for p in temps]), lst(sorted(set(existing))), lst(toks))
+
+    def trace_line(existing_ids, tokens):
+        return "trace %s %s %s %s %s" % (
+            lst([roles[p] for p in ins]), lst([roles[p] for p in outs]),
+            lst([roles[p] for p in temps]), lst(sorted(set(existing_ids))), lst(tokens))
+    rec["line"] = trace_line(existing, toks)
+    rec["labels"] = {}
+    for lab in labels:
+        rec["labels"][lab] = rec["labels"].get(lab, 0) + 1
     if only is not None:
         plan = [only]
     else:
-        if spec["task"] == "tdms2rtdc":      # one run takes seconds: sample 60 points, never all
-            ks, kills = choose_ks(rng, ops, "sample", target=60)
+        if spec["task"] == "tdms2rtdc":      # one run takes seconds: always a stratified sample
+            ks, kills = choose_ks(rng, ops, labels, "sample",
+                                  target=28 if mode == "sample" else 60)
         else:
-            ks, kills = choose_ks(rng, ops, mode)
+            ks, kills = choose_ks(rng, ops, labels, mode)
         plan = [(k, "raise") for k in ks] + [(k, "kill") for k in kills]
-    for k, kind in plan:
+    ren = [i for i, op in enumerate(ops) if op[0] == "rename"]
+    for pi, (k, kind) in enumerate(plan):
         stale = prepare(spec, d, ins, outs)
         status, ops_k = run_child(spec, d, ins, outs, fail_at=k, kind=kind)
         prefix_ok = True
@@ -374,6 +454,23 @@ def do_case(args):
                                if p.is_file() and str(p) not in in_sha
                                and p.name != "_stale.bin" and str(p) not in outs)[:6],
             "writes_before": sum(1 for o in ops[:k] if o[0] == "write")})
+        # two-run history: an undisturbed re-run with the same parameters in the directory the
+        # failed run left behind (no clean-up in between)
+        near = any(abs(k - i) <= 2 for i in ren)
+        if only is None and mode == "all" and not near and (pi + spec["seed"]) % 4:
+            continue
+        if only is None and spec["task"] == "tdms2rtdc" and not near and pi % 2:
+            continue
+        present = [roles[p] for p in roles if pathlib.Path(p).exists()]
+        status2, ops2 = run_child(spec, d, ins, outs)
+        r2 = {"status": status2,
+              "states": [classify(o, stale.get(o), base[o]) for o in outs],
+              "inputs_ok": all(pathlib.Path(p).exists() and sha(p) == h
+                               for p, h in in_sha.items()),
+              "line": None}
+        if ops2 is not None:
+            r2["line"] = trace_line(present, encode_trace(ops2, dict(roles)))
+        rec["results"][-1]["rerun"] = r2
     shutil.rmtree(d, ignore_errors=True)
     return rec
 
@@ -388,7 +485,34 @@ def pool_map(jobs):
         return list(ex.map(do_case, jobs))
 
 
-def evaluate(ctx, rec, pred, verdict):
+def evaluate_rerun(ctx, spec, r, answers, mirror, rec):
+    """second run of a two-run history (failed run, then an undisturbed re-run)"""
+    r2 = r.get("rerun")
+    if not r2:
+        return
+    rp = {"spec": spec, "k": r["k"], "kind": r["kind"], "rerun": True}
+    ctx.stat("rerun:" + ("ok" if r2["status"] == "ok" else "error"))
+    ctx.case((spec["task"], spec["seed"], r["k"], r["kind"], "rerun"),
+             nontrivial=bool(r.get("leftover")))
+    what = None
+    if not r2["inputs_ok"]:
+        what = "an input file changed"
+    elif any(s.startswith("p") for s in r2["states"]):
+        what = "output path holds a partial file: " + \
+            [s for s in r2["states"] if s.startswith("p")][0][2:]
+    elif r2["status"] == "ok" and any(s != "c" for s in r2["states"]):
+        what = f"the re-run succeeded but the outputs are {r2['states']}"
+    if what:
+        ctx.violation("spec", f"{spec['task']}: after a failed run ({r['kind']} at operation "
+                              f"{r['k']}) followed by an undisturbed re-run, {what}", rp)
+        return
+    ans = (answers or {}).get(r2["line"])
+    if ans is not None and (not ans.startswith("conforms") or not ans.endswith("fresh")):
+        mirror.append((rec, {"k": r["k"], "kind": r["kind"] + "+rerun", "states": r2["states"]},
+                       ["re-run trace: " + " ".join(ans.split()[:2] + ans.split()[-1:])]))
+
+
+def evaluate(ctx, rec, pred, verdict, rerun_answers=None):
     """record violations of one case; returns list of mirror disagreements"""
     spec = rec["spec"]
     mirror = []
@@ -418,6 +542,7 @@ def evaluate(ctx, rec, pred, verdict):
             want = [p[r["k"]] if r["k"] < len(p) else "?" for p in pred]
             if want != [s[0] for s in r["states"]]:
                 mirror.append((rec, r, want))
+        evaluate_rerun(ctx, spec, r, rerun_answers, mirror, rec)
     if verdict is not None and not verdict.startswith("conforms"):
         mirror.append((rec, {"k": int(verdict.split()[1]), "kind": "trace", "states": []},
                        ["protocol violated"]))
@@ -428,10 +553,9 @@ def run(ctx):
     cases = []
     per_task = ctx.n(3, 8) if ctx.lean_ok else ctx.n(1, 2)
     for task in TASKS:
-        for _ in range(per_task):
-            cases.append(gen_case(ctx.rng, task))
-    if ctx.thorough:
-        cases.insert(0, tdms_case())      # slowest case first
+        for j in range(per_task):
+            cases.append(gen_case(ctx.rng, task, rich=(j == 0)))
+    cases.insert(0, tdms_case())          # slowest case first
     mode = "all" if (ctx.thorough or not ctx.lean_ok) else "sample"
     jobs = [(spec, str(ctx.workdir / f"case{i}"), mode, None) for i, spec in enumerate(cases)]
     recs = pool_map(jobs)
@@ -439,14 +563,20 @@ def run(ctx):
         if rec["problem"]:
             raise RuntimeError(f"C10 harness: {rec['spec']['task']}: {rec['problem']}")
     preds, verdicts = [None] * len(recs), [None] * len(recs)
+    rerun_answers = None
     if ctx.lean_ok:
-        out = ctx.lean("C10", [r["line"] for r in recs])
+        relines = sorted({r["rerun"]["line"] for rec in recs for r in rec["results"]
+                          if r.get("rerun") and r["rerun"]["line"]})
+        out = ctx.lean("C10", [r["line"] for r in recs] + relines)
         for i, line in enumerate(out):
             w = line.split()
             if w[0] not in ("conforms", "violates"):
                 raise common.LeanUnavailable(f"driver C10 answered {line[:80]!r}")
-            verdicts[i] = w[0] + " " + w[1]
-            preds[i] = w[2].split("|") if len(w) > 2 else []
+            if i < len(recs):
+                verdicts[i] = w[0] + " " + w[1]
+                preds[i] = w[2].split("|") if len(w) > 3 else []
+        rerun_answers = dict(zip(relines, out[len(recs):]))
+        ctx.stat("rerun-traces-checked", len(relines))
     redo = []
     for i, rec in enumerate(recs):
         ctx.stat("ops", rec["n_ops"])
@@ -454,7 +584,9 @@ def run(ctx):
             ctx.stat("op:" + kd, c)
         ctx.stat("conforming-traces", 1 if (verdicts[i] or "").startswith("conforms") else 0)
         n_spec = sum(1 for v in ctx.violations if v["kind"] == "spec")
-        mirror = evaluate(ctx, rec, preds[i], verdicts[i])
+        for lab, c in rec.get("labels", {}).items():
+            ctx.stat("written:" + (lab or "-"), c)
+        mirror = evaluate(ctx, rec, preds[i], verdicts[i], rerun_answers)
         found = sum(1 for v in ctx.violations if v["kind"] == "spec") > n_spec
         if mirror and not found:
             redo.append((i, rec, mirror))
@@ -498,6 +630,11 @@ def replay(ctx, data):
     fails = False
     for r in rec["results"]:
         bad = (not r["inputs_ok"]) or any(s.startswith("p") for s in r["states"])
+        r2 = r.get("rerun")
+        if r2:
+            bad = bad or (not r2["inputs_ok"]) or any(s.startswith("p") for s in r2["states"]) \
+                or (r2["status"] == "ok" and any(s != "c" for s in r2["states"]))
+            print(f"  re-run: status={r2['status'][:60]} states={r2['states']}")
         if bad or only is not None:
             print(f"task={rp['spec']['task']} k={r['k']} kind={r['kind']} status={r['status']} "
                   f"states={r['states']} inputs_ok={r['inputs_ok']} leftover={r['leftover']}")
